@@ -14,7 +14,7 @@ TRUSTED_BASE = [
 ASSUMPTIONS = ["Server::drop(addr) is the application's own act of ending the connection and produces no event by design: the monitor treats the call as the terminal marker of that epoch"]
 RULE = ("1-4 clients against one server over relays with loss/dup/reorder/delay of every datagram; random send/disconnect/disconnect_now/drop calls on both sides incl. both "
         "sides at once, timeouts racing disconnects, late and duplicated handshake and disconnect frames, step cadences 5 ms..2 s; monitor automaton per connection on "
-        "both endpoints' event iterators; plus a peer reconnecting from the same address while the server's entry for its previous connection is pending / active / closing / closed / gone. Non-trivial: at least one Connect and one terminal event. Distinct by (calls made, event shapes).")
+        "both endpoints' event iterators; plus a peer reconnecting from the same address while the server's entry for its previous connection is pending / active / closing / closed / gone. Non-trivial: at least one Connect and one terminal event. Distinct by (calls made, event shapes). Plus: the client's handshake ACK lost, then the client disconnects / sends (frames reaching a Pending entry).")
 
 def reconnect_scenario(r, it, tier, theme=None):
     """a peer that comes back from the SAME address (restarted process, NAT keeping its mapping) while the server's entry
